@@ -62,7 +62,7 @@ VARIABLES
 
 vars == <<m, avail, closed, chunk>>
 
-AllKinds == {"P", "RD", "AL", "UA", "ON", "OF", "NP", "VB", "GO", "GC", "HD", "HE", "LC", "SE", "CM"}
+AllKinds == {"P", "RD", "AL", "UA", "ON", "OF", "NP", "VB", "GO", "GC", "HD", "HE", "LC", "SE", "CM", "U8", "BX"}
 
 Num(i) == ToString(i)
 
@@ -82,6 +82,16 @@ Num(i) == ToString(i)
 \*  LC  a command line ending in backslash-newline
 \*  SE  a line that is a syntax error wherever a command may start
 \*  CM  a comment line
+\*  U8  a simple command whose word ends in a two-byte UTF-8 character
+\*  BX  a line whose last byte before the newline is the lead byte of a
+\*      three-byte UTF-8 sequence (Latin-1 text): not a character.  What the
+\*      shell makes of such a line as COMMAND text is open (outside the family);
+\*      as DATA for `read` it is one line like any other: `read` fails or not,
+\*      but it takes exactly the bytes through that line's newline.
+\* Non-ASCII bytes are written in the text as ASCII placeholders: <U+00E9>
+\* (the character, two bytes in the script) and <E9> (the single byte); the
+\* harness expands them when it writes the script and re-creates them in what
+\* it observed.  TextBytes is the length of the line in the script.
 Text(k, i) ==
   CASE k = "P"  -> "probe p" \o Num(i)
     [] k = "RD" -> "read -r v; probe r" \o Num(i) \o " \"$v\""
@@ -98,6 +108,10 @@ Text(k, i) ==
     [] k = "LC" -> "probe l" \o Num(i) \o " \\"
     [] k = "SE" -> "probe s" \o Num(i) \o "; )"
     [] k = "CM" -> "# c" \o Num(i)
+    [] k = "U8" -> "probe u" \o Num(i) \o "<U+00E9>"
+    [] k = "BX" -> "probe b" \o Num(i) \o "caf<E9>"
+
+TextBytes(k, i) == Len(Text(k, i)) - (IF k = "U8" THEN 6 ELSE IF k = "BX" THEN 3 ELSE 0)
 
 \* Content of descriptor 0 in feed "str" (every line newline-terminated).
 Data == <<"d1", "d2">>
@@ -111,17 +125,21 @@ Op(t, tag, b) == [t |-> t, tag |-> tag, x |-> <<>>, c |-> <<>>, b |-> b]
 \*   t = "read" | "assign" | "verb";  t = "alias" | "port": b = new value
 \*   t = "hdloop": tag, c = line numbers of the here-document body
 
-Ev(args, st, off) == [args |-> args, st |-> st, off |-> off]
+\* fr: the last argument (the value `read` left in $v) is not specified
+Ev(args, st, off) == [args |-> args, st |-> st, off |-> off, fr |-> FALSE]
 
 \* The machine at the start of a script.  `lines`/`eof`: the script as far as
 \* it is determined; eof = "open" (more may follow; lazy mode only), "nl"
 \* (ends after the last line, which has its newline), "nonl" (the last line
 \* lacks the newline).
-Start(lines, eof, feed) ==
+StartM(lines, eof, feed, medium, nb0) ==
   [ feed |-> feed, lines |-> lines, eof |-> eof,
+    medium |-> medium,    \* what descriptor 0 is: "file" | "pipe" ("fd" feed); "none": not the script
+    nbk |-> nb0,          \* O_NONBLOCK of the open file description of descriptor 0
+
     off |-> 0,            \* lines consumed from descriptor 0
     sp |-> 0,             \* feed "str": lines the lexer has taken from the string
-    pc |-> "need",        \* need | parsed | exec | synerr | done
+    pc |-> "start",       \* start | need | parsed | exec | synerr | done
     fresh |-> TRUE,       \* at the top of the loop: nothing of the next command read yet
     first |-> 0, last |-> 0,   \* first / last line of the command being parsed
     pal |-> FALSE, pport |-> FALSE,   \* alias table / parser mode sampled at the top of the loop
@@ -130,10 +148,21 @@ Start(lines, eof, feed) ==
     lc |-> FALSE,         \* the last line ended in backslash-newline
     ops |-> <<>>,
     al |-> FALSE, port |-> FALSE, verb |-> FALSE, st |-> 0, v |-> "",   \* execution environment
+    vfree |-> FALSE,      \* $v is whatever a failed `read` left there
+    noisy |-> FALSE, necho |-> 0,   \* a `read` has complained on stderr; lines echoed before that
     trace |-> <<>>,       \* probe events
     echo |-> <<>>,        \* lines the lexer read while `verbose` was on
     err |-> FALSE,        \* a syntax error was reported
     skip |-> FALSE ]      \* the script left the family this specification speaks about
+
+Start(lines, eof, feed) == StartM(lines, eof, feed, IF feed = "fd" THEN "pipe" ELSE "none", TRUE)
+
+\* XCU sh, STDIN: "If the standard input to sh is a FIFO or terminal device and
+\* is set to non-blocking reads, then sh shall enable blocking reads on
+\* standard input.  This shall remain in effect when the command completes."
+\* (Commands that inherit descriptor 0 -- `read`, children -- rely on it.)
+Startup(s) == [s EXCEPT !.pc = "need",
+                        !.nbk = IF s.feed = "fd" /\ s.medium = "pipe" THEN FALSE ELSE @]
 
 LexPos(s) == IF s.feed = "fd" THEN s.off ELSE s.sp
 AdvLex(s) == IF s.feed = "fd" THEN [s EXCEPT !.off = @ + 1] ELSE [s EXCEPT !.sp = @ + 1]
@@ -185,6 +214,7 @@ PlainLine(s, n, k, nonl) ==
        [] k = "LC" -> IF nonl THEN Skip(s) ELSE [AddOps(s, <<Pr("l", FALSE)>>) EXCEPT !.lc = TRUE]
        [] k = "SE" -> SynErr(s)
        [] k = "CM" -> EndLine(s)
+       [] k = "U8" -> EndLine(AddOps(s, <<Op("probe", "u" \o Num(n) \o "<U+00E9>", FALSE)>>))
 
 AtEof(s) ==
   IF s.hd # 0 THEN Skip(s)
@@ -205,7 +235,8 @@ NeedLine(s) ==
                             !.last = n,
                             !.pal = IF s.fresh THEN s.al ELSE @,
                             !.pport = IF s.fresh THEN s.port ELSE @]
-       IN IF s1.hd # 0 THEN HereLine(s1, n, k, nonl)
+       IN IF k = "BX" THEN Skip(s1)       \* not text: what the lexer makes of it is open
+          ELSE IF s1.hd # 0 THEN HereLine(s1, n, k, nonl)
           ELSE IF s1.lc THEN ContLine(s1, n, k, nonl)
           ELSE PlainLine(s1, n, k, nonl)
 
@@ -215,11 +246,16 @@ ParseDone(s) == [s EXCEPT !.pc = "exec"]
 ReadData(r) ==
   LET n == r.off + 1 IN
   IF r.feed = "fd"
-  THEN IF n > Len(r.lines) THEN [r EXCEPT !.v = "", !.st = 1]
-       ELSE [r EXCEPT !.v = Text(r.lines[n], n), !.off = n,
+  THEN IF n > Len(r.lines) THEN [r EXCEPT !.v = "", !.vfree = FALSE, !.st = 1]
+       ELSE IF r.lines[n] = "BX"
+       THEN \* not a character string: `read` fails (status > 0, a diagnostic; the
+            \* variable is not specified) having taken that line and nothing more
+            [r EXCEPT !.v = "", !.vfree = TRUE, !.off = n, !.st = 1,
+                      !.noisy = TRUE, !.necho = IF r.noisy THEN @ ELSE Len(r.echo)]
+       ELSE [r EXCEPT !.v = Text(r.lines[n], n), !.vfree = FALSE, !.off = n,
                       !.st = IF n = Len(r.lines) /\ r.eof = "nonl" THEN 1 ELSE 0]
-  ELSE IF n > Len(Data) THEN [r EXCEPT !.v = "", !.st = 1]
-       ELSE [r EXCEPT !.v = Data[n], !.off = n, !.st = 0]
+  ELSE IF n > Len(Data) THEN [r EXCEPT !.v = "", !.vfree = FALSE, !.st = 1]
+       ELSE [r EXCEPT !.v = Data[n], !.vfree = FALSE, !.off = n, !.st = 0]
 
 Pfx(s)   == IF s.pal THEN <<"A">> ELSE <<>>
 TagW(o)  == IF o.tag = "" THEN <<>> ELSE <<o.tag>>
@@ -229,7 +265,8 @@ ExecOp(s) ==
   ELSE LET o == Head(s.ops)
            r == [s EXCEPT !.ops = Tail(@)]
        IN CASE o.t = "probe"  -> [r EXCEPT !.trace = Append(@,
-                                     Ev(Pfx(s) \o TagW(o) \o o.x \o (IF o.b THEN <<s.v>> ELSE <<>>), s.st, s.off))]
+                                     [Ev(Pfx(s) \o TagW(o) \o o.x \o (IF o.b THEN <<s.v>> ELSE <<>>), s.st, s.off)
+                                        EXCEPT !.fr = o.b /\ s.vfree])]
             [] o.t = "read"   -> ReadData(r)
             [] o.t = "alias"  -> [r EXCEPT !.al = o.b, !.st = 0]
             [] o.t = "port"   -> [r EXCEPT !.port = o.b, !.st = 0]
@@ -237,12 +274,13 @@ ExecOp(s) ==
             [] o.t = "assign" -> [r EXCEPT !.st = 0]
             [] o.t = "hdloop" -> [r EXCEPT !.trace = @ \o [j \in 1..Len(o.c) |->
                                       Ev(Pfx(s) \o <<o.tag, Text(s.lines[o.c[j]], o.c[j])>>, 0, s.off)],
-                                           !.st = 0, !.v = ""]
+                                           !.st = 0, !.v = "", !.vfree = FALSE]
 
 SyntaxErr(s) == [s EXCEPT !.pc = "done", !.err = TRUE, !.st = 1, !.ops = <<>>]
 
 Step(s) ==
-  CASE s.pc = "need"   -> NeedLine(s)
+  CASE s.pc = "start"  -> Startup(s)
+    [] s.pc = "need"   -> NeedLine(s)
     [] s.pc = "parsed" -> ParseDone(s)
     [] s.pc = "exec"   -> ExecOp(s)
     [] s.pc = "synerr" -> SyntaxErr(s)
@@ -254,12 +292,12 @@ Run(s) == IF s.pc = "done" THEN s ELSE Run(Step(s))
 Oracle(lines, nl, feed) == Run(Start(lines, IF nl THEN "nl" ELSE "nonl", feed))
 
 \* What the outside can see of a finished run.
-Obs(s) == [trace |-> s.trace, st |-> s.st, err |-> s.err, echo |-> s.echo, skip |-> s.skip]
+Obs(s) == [trace |-> s.trace, st |-> s.st, err |-> s.err, echo |-> s.echo, skip |-> s.skip, nbk |-> s.nbk]
 
 -----------------------------------------------------------------------------
 \* Byte offsets.  Stream of descriptor 0: the script (feed "fd") or Data.
 RECURSIVE SumLen(_, _, _)
-SumLen(lines, k, acc) == IF k = 0 THEN acc ELSE SumLen(lines, k - 1, acc + Len(Text(lines[k], k)) + 1)
+SumLen(lines, k, acc) == IF k = 0 THEN acc ELSE SumLen(lines, k - 1, acc + TextBytes(lines[k], k) + 1)
 
 Bytes(s, k) ==
   IF s.feed = "fd"
@@ -302,6 +340,7 @@ Close == /\ chunk > 0 /\ avail = Total(m) /\ ~closed
 
 \* Machine actions (named separately so that TLC reports coverage per action)
 Do(s)         == Known(s) /\ Arrived(s) /\ m' = Step(s) /\ UNCHANGED <<avail, closed, chunk>>
+AStartup      == m.pc = "start" /\ Do(m)
 ANeedLine     == m.pc = "need" /\ Do(m)
 AParseDone    == m.pc = "parsed" /\ Do(m)
 AExec(t)      == m.pc = "exec" /\ m.ops # <<>> /\ Head(m.ops).t = t /\ Do(m)
@@ -313,7 +352,7 @@ AAssign       == TRUE /\ AExec("assign")
 AHereLoop     == TRUE /\ AExec("hdloop")
 AFlush        == m.pc = "exec" /\ m.ops = <<>> /\ Do(m)
 ASyntaxError  == m.pc = "synerr" /\ Do(m)
-Machine == ANeedLine \/ AParseDone \/ AProbe \/ AReadData \/ ADefAlias \/ ASetOpt \/ AAssign
+Machine == AStartup \/ ANeedLine \/ AParseDone \/ AProbe \/ AReadData \/ ADefAlias \/ ASetOpt \/ AAssign
            \/ AHereLoop \/ AFlush \/ ASyntaxError
 
 \* The environment decides what the next unread line is (or that there is none).
@@ -321,6 +360,7 @@ Extend ==
   /\ m.pc # "done" /\ ~Known(m)
   /\ \/ \E k \in Kinds, nonl \in BOOLEAN :
           /\ Len(m.lines) < MaxLen
+          /\ (k = "BX" => m.feed = "fd")     \* a string (-c, eval) is text by construction
           /\ m' = [m EXCEPT !.lines = Append(@, k), !.eof = IF nonl THEN "nonl" ELSE "open"]
      \/ m' = [m EXCEPT !.eof = "nl"]
   /\ UNCHANGED <<avail, closed, chunk>>
@@ -342,7 +382,7 @@ SeqsUpTo(S, n) == IF n = 0 THEN {<<>>}
 
 InitC == /\ \E ls \in SeqsUpTo(KindsC, MaxLenC), e \in {"nl", "nonl"}, c \in ChunkSizes :
               /\ (ls = <<>> => e = "nl")
-              /\ m = Start(ls, e, "fd")
+              /\ \E nb0 \in BOOLEAN : m = StartM(ls, e, "fd", "pipe", nb0)
               /\ chunk = c
          /\ avail = 0 /\ closed = FALSE
 \* everything written, the end closed, the shell finished: the run is over
@@ -355,7 +395,8 @@ SpecC == InitC /\ [][NextC]_vars
 \* Properties
 
 TypeOK ==
-  /\ m.pc \in {"need", "parsed", "exec", "synerr", "done"}
+  /\ m.pc \in {"start", "need", "parsed", "exec", "synerr", "done"}
+  /\ m.nbk \in BOOLEAN
   /\ m.off \in 0..Len(IF m.feed = "fd" THEN m.lines ELSE Data)
   /\ m.sp \in 0..Len(m.lines)
   /\ m.st \in {0, 1}
@@ -370,6 +411,11 @@ OffAtExec ==
      /\ m.first <= m.last
      /\ \A j \in 1..Len(m.ops) : m.ops[j].t = "hdloop" =>
            \A i \in 1..Len(m.ops[j].c) : m.ops[j].c[i] \in m.first..m.last
+
+\* Once the shell has started on a script that comes through a pipe, descriptor 0
+\* is in blocking mode, whatever it was before, and stays so.
+StdinBlocking == (m.pc # "start" /\ m.feed = "fd" /\ m.medium = "pipe") => ~m.nbk
+StdinModeAfterStartup(feed, medium, nb0) == Startup(StartM(<<>>, "nl", feed, medium, nb0)).nbk
 
 \* Every command before a syntax error has executed, exactly as if the script
 \* ended before the command that holds the error (two instances compared).
@@ -389,7 +435,7 @@ ASSUME ~Oracle(<<"ON", "OF", "NP">>, TRUE, "str").err
 \* The result does not depend on how the descriptor was fed (two instances:
 \* the chunked run against the run with everything present from the start).
 ChunkIndependent ==
-  m.pc = "done" => Obs(m) = Obs(Run(Start(m.lines, m.eof, m.feed)))
+  m.pc = "done" => Obs(m) = Obs(Run(Start(m.lines, m.eof, m.feed)))   \* incl. the mode of descriptor 0
 
 \* The chunked run never gets stuck before the shell is done: SpecC is checked
 \* for deadlock (the only state without a proper successor is the final one,
@@ -415,6 +461,14 @@ ASSUME Args(Oracle(<<"RD", "P">>, TRUE, "str")) = <<<<"r1", "d1">>, <<"p2">>>>
 \* `read` at end of file: empty value, status > 0; last line without newline: value, status > 0
 ASSUME LET o == Oracle(<<"RD">>, TRUE, "fd") IN o.trace = <<Ev(<<"r1", "">>, 1, 1)>> /\ o.st = 1
 ASSUME LET o == Oracle(<<"RD", "P">>, FALSE, "fd") IN o.trace = <<Ev(<<"r1", "probe p2">>, 1, 2)>>
+\* `read` of a line that is not text: fails, takes exactly that line (the seeded defect reads on)
+ASSUME LET o == Oracle(<<"RD", "BX", "P">>, TRUE, "fd")
+       IN /\ Len(o.trace) = 2 /\ o.trace[1].st = 1 /\ o.trace[1].fr /\ o.trace[1].off = 2
+          /\ o.trace[2] = Ev(<<"p3">>, 1, 3)
+ASSUME Args(Oracle(<<"RD", "U8", "U8">>, TRUE, "fd")) = <<<<"r1", "probe u2<U+00E9>">>, <<"u3<U+00E9>">>>>
+ASSUME TextBytes("U8", 3) = 10 /\ TextBytes("BX", 3) = 12
+\* XCU sh STDIN: a FIFO set to non-blocking reads is made blocking; a regular file is left alone
+ASSUME ~StdinModeAfterStartup("fd", "pipe", TRUE) /\ StdinModeAfterStartup("fd", "file", TRUE)
 \* posix.md: array assignment is rejected only once `portable` is in effect for the parse
 ASSUME LET o == Oracle(<<"ON", "P">>, TRUE, "fd") IN Args(o) = <<<<"o1">>, <<"p2">>>> /\ ~o.err
 ASSUME Oracle(<<"ON", "NP">>, TRUE, "fd").err /\ ~Oracle(<<"NP">>, TRUE, "fd").err
@@ -430,7 +484,7 @@ Entry(s) ==
     feed   |-> s.feed,
     text   |-> [i \in 1..Len(s.lines) |-> Text(s.lines[i], i)],
     trace  |-> [i \in 1..Len(s.trace) |->
-                  [args |-> s.trace[i].args, st |-> s.trace[i].st,
+                  [args |-> s.trace[i].args, st |-> s.trace[i].st, fr |-> s.trace[i].fr,
                    off |-> Bytes([s EXCEPT !.eof = IF @ = "open" THEN "nl" ELSE @], s.trace[i].off)]],
     status |-> s.st,
     err    |-> s.err,
